@@ -51,7 +51,8 @@ def canon_val(v):
     if v is None:
         return ""
     if isinstance(v, bytes):
-        return v.decode()
+        # text that was written as str comes back as str; raw bytes are a different value
+        return ("bytes", v.hex())
     if isinstance(v, np.ndarray):
         if v.dtype.kind in "SU":
             return [canon_val(x) for x in v.tolist()]
